@@ -27,6 +27,7 @@ when the condition is false; the theorems speak about `Tag.normal` end states (s
 -/
 import HalmosVerif.Lemmas.SevmExplore
 import HalmosVerif.Lemmas.SevmCallExplore
+import HalmosVerif.Lemmas.SevmCallHsto
 import HalmosVerif.Lemmas.WordStd
 
 namespace HalmosVerif.Props.C01
@@ -363,7 +364,7 @@ theorem sound_calls_gen {s : Simp} (hs : SimpSound s) (o : Oracle) (cfg : Cfg) (
     (hcodes : ∀ a, w.codeOf a = codeOf codes a)
     (hcb : ∀ a prog, codeOf codes a = some prog → ∀ b ∈ prog, b < 256)
     (hz : ∀ a, S a → ZeroStorage w a)
-    (hob : cfg.balances = true → OracleSound o) (hch : CreateHyp cfg p S w)
+    (hob : cfg.balances = true → OracleSound o) (hch : CreateHyp cfg p S w) (hnh : cfg.hsto = false)
     (ce : CEnd) (hce : ce ∈ (runC s o cfg env codes this fuel).ends)
     (htag : ce.e.tag = .normal) (h : Evm.Halt) (hout : ce.e.out = .halt h) (I : Interp) (hI : I.Std)
     (hbal : cfg.balances = true → BalHyp I cfg w) (hsha : cfg.sha3 = true → ShaInterp I p cfg)
@@ -374,7 +375,7 @@ theorem sound_calls_gen {s : Simp} (hs : SimpSound s) (o : Oracle) (cfg : Cfg) (
   have hgood := exploreC_sound (o := o) (cfg := cfg) (codes := codes) (p := p) (w0 := w)
     (S := S) (cs0 := initC env codes this)
     (H := fun I => (cfg.balances = true → BalHyp I cfg w) ∧ (cfg.sha3 = true → ShaInterp I p cfg))
-    hs hmem hdep hcodes hSc hcb hob (fun _ h => h) hch fuel 0 [initC env codes this] {} (by
+    hs hmem hdep hcodes hSc hcb hob (fun _ h => h) hch hnh fuel 0 [initC env codes this] {} (by
       intro cs hm
       rw [List.mem_singleton] at hm
       subst hm; exact goodC_init)
@@ -390,7 +391,7 @@ theorem sound_calls {s : Simp} (hs : SimpSound s) (o : Oracle) (cfg : Cfg) (env 
     (hcodes : ∀ a, w.codeOf a = codeOf codes a)
     (hcb : ∀ a prog, codeOf codes a = some prog → ∀ b ∈ prog, b < 256)
     (hz : ∀ a, Modelled codes this a → ZeroStorage w a)
-    (hob : cfg.balances = true → OracleSound o) (hnc : cfg.create = false)
+    (hob : cfg.balances = true → OracleSound o) (hnc : cfg.create = false) (hnh : cfg.hsto = false)
     (ce : CEnd) (hce : ce ∈ (runC s o cfg env codes this fuel).ends)
     (htag : ce.e.tag = .normal) (h : Evm.Halt) (hout : ce.e.out = .halt h) (I : Interp) (hI : I.Std)
     (hbal : cfg.balances = true → BalHyp I cfg w) (hsha : cfg.sha3 = true → ShaInterp I p cfg)
@@ -399,7 +400,7 @@ theorem sound_calls {s : Simp} (hs : SimpSound s) (o : Oracle) (cfg : Cfg) (env 
     ∃ n w', Evm.exec p n w f0 = some (w', haltWith h (ce.e.data.map (·.eval I))) ∧
         WRelM I (Modelled codes this) w w' (stoOf ce.stores) (evalLogs I ce.logs) (balSem I w ce.bal) := by
   obtain ⟨n, w', hn, hW⟩ := sound_calls_gen hs o cfg env codes this fuel p w (Modelled codes this) (Or.inl rfl)
-    (fun _ _ h => modelled_of_code h) hmem hdep hcodes hcb hz hob (CreateHyp.off hnc) ce hce htag h hout I hI hbal hsha
+    (fun _ _ h => modelled_of_code h) hmem hdep hcodes hcb hz hob (CreateHyp.off hnc) hnh ce hce htag h hout I hI hbal hsha
     f0 hR0 hthis hd0 hsat
   obtain ⟨hc, hn0⟩ := runC_noCr hnc ce hce
   rw [hc, hn0, wd_zero] at hW
@@ -424,7 +425,7 @@ theorem sound_calls_create {s : Simp} (hs : SimpSound s) (o : Oracle) (cfg : Cfg
     (hcodes : ∀ a, w.codeOf a = codeOf codes a)
     (hcb : ∀ a prog, codeOf codes a = some prog → ∀ b ∈ prog, b < 256)
     (hz : ∀ a, ModelledC cfg codes this a → ZeroStorage w a)
-    (hob : cfg.balances = true → OracleSound o) (hcr : cfg.create = true)
+    (hob : cfg.balances = true → OracleSound o) (hcr : cfg.create = true) (hnh : cfg.hsto = false)
     (hal : ∀ n, p.newAddress (w.created + n) = (cfg.allocBase + n) % 2 ^ 160)
     (hbw : ∀ a, w.balanceOf a < 2 ^ 256)
     (ce : CEnd) (hce : ce ∈ (runC s o cfg env codes this fuel).ends)
@@ -437,7 +438,7 @@ theorem sound_calls_create {s : Simp} (hs : SimpSound s) (o : Oracle) (cfg : Cfg
           (balSem I w ce.bal) :=
   sound_calls_gen hs o cfg env codes this fuel p w (ModelledC cfg codes this) (Or.inl (Or.inl rfl))
     (fun _ _ h => Or.inl (modelled_of_code h)) hmem hdep hcodes hcb hz hob
-    (fun hc => ⟨hal, fun n => Or.inr ⟨hc, n, rfl⟩, hbw⟩) ce hce htag h hout I hI hbal hsha f0 hR0 hthis hd0 hsat
+    (fun hc => ⟨hal, fun n => Or.inr ⟨hc, n, rfl⟩, hbw⟩) hnh ce hce htag h hout I hI hbal hsha f0 hR0 hthis hd0 hsat
 
 /-! non-vacuity: a caller and a callee -/
 
@@ -484,7 +485,7 @@ example : ∃ n w', Evm.exec exPC n exWC { exF0 with code := callerCode } =
         simp only [Option.map_some, Option.some.injEq] at hc
         subst hc
         exact hall q (List.mem_of_find?_eq_some hf) b hb)
-    (fun _ _ _ => ⟨rfl, rfl⟩) (fun h => by cases h) rfl ce hce htag (.success []) hout exI exI_std (fun h => by cases h) (fun h => by cases h)
+    (fun _ _ _ => ⟨rfl, rfl⟩) (fun h => by cases h) rfl rfl ce hce htag (.success []) hout exI exI_std (fun h => by cases h) (fun h => by cases h)
     _ hR rfl rfl (by rw [hp]; exact Sat.nil _)
   refine ⟨n, w', ?_, ?_, ?_, ?_⟩
   · have hv : haltWith (.success []) (ce.e.data.map (·.eval exI)) = .success (List.replicate 31 0 ++ [0x2a]) := by
@@ -512,7 +513,7 @@ theorem sound_calls_logs {s : Simp} (hs : SimpSound s) (o : Oracle) (cfg : Cfg) 
     (hcodes : ∀ a, w.codeOf a = codeOf codes a)
     (hcb : ∀ a prog, codeOf codes a = some prog → ∀ b ∈ prog, b < 256)
     (hz : ∀ a, Modelled codes this a → ZeroStorage w a)
-    (hob : cfg.balances = true → OracleSound o) (hnc : cfg.create = false)
+    (hob : cfg.balances = true → OracleSound o) (hnc : cfg.create = false) (hnh : cfg.hsto = false)
     (ce : CEnd) (hce : ce ∈ (runC s o cfg env codes this fuel).ends)
     (htag : ce.e.tag = .normal) (h : Evm.Halt) (hout : ce.e.out = .halt h) (I : Interp) (hI : I.Std)
     (hbal : cfg.balances = true → BalHyp I cfg w) (hsha : cfg.sha3 = true → ShaInterp I p cfg)
@@ -520,7 +521,7 @@ theorem sound_calls_logs {s : Simp} (hs : SimpSound s) (o : Oracle) (cfg : Cfg) 
     (hd0 : f0.depth = 0) (hsat : Sat I ce.e.st.path) :
     ∃ n w', Evm.exec p n w f0 = some (w', haltWith h (ce.e.data.map (·.eval I))) ∧
         w'.logs = w.logs ++ ce.logs.map (fun l => (l.addr.eval I, l.topics.map (·.denote I), l.data.map (·.eval I))) := by
-  obtain ⟨n, w', hn, hW⟩ := sound_calls hs o cfg env codes this fuel p w hmem hdep hcodes hcb hz hob hnc ce hce htag h hout
+  obtain ⟨n, w', hn, hW⟩ := sound_calls hs o cfg env codes this fuel p w hmem hdep hcodes hcb hz hob hnc hnh ce hce htag h hout
     I hI hbal hsha f0 hR0 hthis hd0 hsat
   exact ⟨n, w', hn, hW.logs⟩
 
@@ -532,7 +533,7 @@ theorem sound_calls_balances {s : Simp} (hs : SimpSound s) (o : Oracle) (cfg : C
     (hcodes : ∀ a, w.codeOf a = codeOf codes a)
     (hcb : ∀ a prog, codeOf codes a = some prog → ∀ b ∈ prog, b < 256)
     (hz : ∀ a, Modelled codes this a → ZeroStorage w a)
-    (hob : cfg.balances = true → OracleSound o) (hnc : cfg.create = false)
+    (hob : cfg.balances = true → OracleSound o) (hnc : cfg.create = false) (hnh : cfg.hsto = false)
     (ce : CEnd) (hce : ce ∈ (runC s o cfg env codes this fuel).ends)
     (htag : ce.e.tag = .normal) (h : Evm.Halt) (hout : ce.e.out = .halt h) (I : Interp) (hI : I.Std)
     (hbal : cfg.balances = true → BalHyp I cfg w) (hsha : cfg.sha3 = true → ShaInterp I p cfg)
@@ -540,7 +541,7 @@ theorem sound_calls_balances {s : Simp} (hs : SimpSound s) (o : Oracle) (cfg : C
     (hd0 : f0.depth = 0) (hsat : Sat I ce.e.st.path) :
     ∃ n w', Evm.exec p n w f0 = some (w', haltWith h (ce.e.data.map (·.eval I))) ∧
         ∀ a, w'.balanceOf a = balSem I w ce.bal a := by
-  obtain ⟨n, w', hn, hW⟩ := sound_calls hs o cfg env codes this fuel p w hmem hdep hcodes hcb hz hob hnc ce hce htag h hout
+  obtain ⟨n, w', hn, hW⟩ := sound_calls hs o cfg env codes this fuel p w hmem hdep hcodes hcb hz hob hnc hnh ce hce htag h hout
     I hI hbal hsha f0 hR0 hthis hd0 hsat
   exact ⟨n, w', hn, hW.bal⟩
 
@@ -701,7 +702,7 @@ example : ∃ n w', Evm.exec crP n crW { exF0 with code := crMain } =
         simp only [Option.map_some, Option.some.injEq] at hc
         subst hc
         exact hall q (List.mem_of_find?_eq_some hf) b hb)
-    (fun _ _ _ => ⟨rfl, rfl⟩) (fun h => by cases h) rfl
+    (fun _ _ _ => ⟨rfl, rfl⟩) (fun h => by cases h) rfl rfl
     (fun n => by show (0xaaaa0001 + (0 + n)) % 2 ^ 160 = _; rw [Nat.zero_add])
     (fun a => by show Evm.lookupD [] a 0 < 2 ^ 256; simp [Evm.lookupD])
     ce hce htag (.success []) hout exI exI_std (fun h => by cases h) (fun h => by cases h) _ hR rfl rfl
@@ -730,6 +731,57 @@ example :
         (fun r => (r.2.data.getLast?, r.1.balanceOf 0x1000, r.1.balanceOf 0xaaaa0002)) = some (some 95, 95, 5) ∧
     (Evm.exec crP 60 crValW { exF0 with code := crValMain }).map
         (fun r => (r.1.codeOf 0xaaaa0002, r.1.created)) = some (some [], 1) := by
+  decide +kernel
+
+/-- **C01.mapping_load_partial.** Storage cells at mapping and dynamic-array locations (`cfg.hsto`: SLOAD / SSTORE at
+    `f_sha3_512(key ‖ base)` — `SolidityStorage` for a single-level mapping with a 256-bit key, `kind = 2` — and at
+    `f_sha3_256(base) + index` — a dynamic array, `kind = 1`, the key term being `0 + index`), cell level: what a load
+    returns — `Exec.select` through the chain of stores of the path, the empty array reading 0 at the key (the
+    emptiness condition `load` appends) — denotes the value the flat storage described by the chain holds at the
+    location `hLoc` of the cell (`keccak(key ‖ base)`, resp. `keccak(base) + index`), under every valuation satisfying the path for which no other cell
+    written on the path lies at that location (`HNoColl`: an assumption on the hash, like `ShaOK`). PARTIAL: this is the
+    storage-level core only; the simulation theorems (`sound_calls` …) assume `cfg.hsto = false` (`hnh`), i.e. they do
+    not yet relate these cells to the reference's storage along a run — the model with `cfg.hsto` on is checked
+    against the real SEVM by the differential harness, and `mapCode` below is an instance against the reference. -/
+theorem mapping_load_partial {I : Interp} {p : Evm.Params} {s : Simp} {o : Oracle} (hs : SimpSound s)
+    (ho : OracleSound o) {path : List B} (hsat : Sat I path) {chain : List HCell} {acct kind base : Nat} {k : T}
+    (hc : HChainWF chain) (hk : k.WF) (hkw : k.width = 256) (hn : HNoColl I p chain acct kind base k)
+    (he : I.uf1 (hEmptyName acct kind base) 256 (k.eval I) % 2 ^ 256 = 0) :
+    (hSelect s o path acct kind base chain k).eval I = hFlat I p chain acct (hLoc p kind (k.eval I) base) :=
+  (hSelect_ok hs ho hsat hc hk hkw hn he).2.2
+
+/-- a Solidity mapping at slot 5 (`cfg.sha3` and `cfg.hsto` on): `m[x] = 7; return m[x]` with `x` the calldata word -/
+def mapHash : List Nat := [0x60, 4, 0x35, 0x60, 0, 0x52, 0x60, 5, 0x60, 0x20, 0x52, 0x60, 0x40, 0x60, 0, 0x20]
+def mapCode : List Nat :=
+  [0x60, 7] ++ mapHash ++ [0x55] ++ mapHash ++ [0x54, 0x60, 0, 0x52, 0x60, 32, 0x60, 0, 0xf3]
+
+/-- the model stores into and loads from the cell `m[x]` (one `Store` on the chain, read back); the reference, with
+    the real Keccak-256, writes 7 to the slot keccak(x ‖ 5) and returns it -/
+example :
+    (runC foldSimp exOracle { sha3 := true, hsto := true } exEnv [(0x1000, mapCode)] 0x1000 100).ends.map
+        (fun ce => (ce.e.out, ce.e.tag, (ce.e.data.map (·.eval exI)).getLast?, ce.hsto.length)) =
+      [(.halt (.success []), .normal, some 7, 1)] ∧
+    (Evm.exec { exPC with keccak := Keccak.keccak256 } 60 { exWC with code := [(0x1000, mapCode)] }
+        { exF0 with code := mapCode }).map
+      (fun r => (r.2.data.getLast?, Evm.lookupD r.1.storage (0x1000, hLoc { exPC with keccak := Keccak.keccak256 } 2 42 5))) =
+      some (some 7, 7) := by
+  decide +kernel
+
+/-- a Solidity dynamic array at slot 7: `a[x] = 9; return a[x]` (no bounds check: the raw element access) -/
+def arrLoc : List Nat := [0x60, 4, 0x35, 0x60, 7, 0x60, 0, 0x52, 0x60, 0x20, 0x60, 0, 0x20, 0x01]
+def arrCode : List Nat :=
+  [0x60, 9] ++ arrLoc ++ [0x55] ++ arrLoc ++ [0x54, 0x60, 0, 0x52, 0x60, 32, 0x60, 0, 0xf3]
+
+/-- the model recognises `keccak(7) + x` through the condition `f_sha3_256(7) == digest` and stores into / loads from
+    the element `a[x]`; the reference writes 9 to the slot keccak(7) + x and returns it -/
+example :
+    (runC foldSimp exOracle { sha3 := true, hsto := true } exEnv [(0x1000, arrCode)] 0x1000 100).ends.map
+        (fun ce => (ce.e.out, ce.e.tag, (ce.e.data.map (·.eval exI)).getLast?, ce.hsto.map (·.kind))) =
+      [(.halt (.success []), .normal, some 9, [1])] ∧
+    (Evm.exec { exPC with keccak := Keccak.keccak256 } 60 { exWC with code := [(0x1000, arrCode)] }
+        { exF0 with code := arrCode }).map
+      (fun r => (r.2.data.getLast?, Evm.lookupD r.1.storage (0x1000, hLoc { exPC with keccak := Keccak.keccak256 } 1 42 7))) =
+      some (some 9, 9) := by
   decide +kernel
 
 /-- a reverting callee: `sstore(0, 7); mstore(0, 0x2a); revert(0, 32)` -/
